@@ -200,7 +200,7 @@ def compose_eval(p):
         m2 = z_check([z_all(res.a, env2), z_all(res.g, env2), z_some_violated(keepers, env2)], env2)
         if m2 not in (None, "unknown"):
             both = [t for t in keepers if any(t == u for u in c1.g.terms) and any(t == u for u in c2.g.terms)]
-            viol.append(("C15", "forgotten_guarantee" + (":present_in_both_operands" if both else "") + (":tactic5" if 5 in used else ""), "an interface-level guarantee of an operand is not enforced by the composition; point %s" % (m2,)))
+            viol.append(("C15", "forgotten_guarantee" + ((":present_in_both_operands:simplify=%s" % p["simplify"]) if both else "") + (":tactic5" if 5 in used else ""), "an interface-level guarantee of an operand is not enforced by the composition; point %s" % (m2,)))
     connected = bool((O1 & I2) | (O2 & I1))
     if not connected and not p["keep"]:
         env3 = Env()
@@ -583,6 +583,13 @@ def merge_build(seed, tier):
     c2 = gen_component(g, shared_in + (["i2"] if r.random() < 0.5 else []), shared_out + ["p2"])
     if r.random() < 0.4 and c1.g.terms:
         c2 = type(c2)(c2.a, c2.g | g.PTL([t.copy() for t in c1.g.terms[:1] if {v.name for v in t.vars} <= {v.name for v in c2.inputvars + c2.outputvars}]), c2.inputvars, c2.outputvars, simplify=False)
+    if r.random() < 0.3 and c1.g.terms:
+        # almost the same guarantee on both sides: coefficients differing by a few 1e-6 relative (two different constraints)
+        t = c1.g.terms[0]
+        if {v.name for v in t.vars} <= {v.name for v in c2.inputvars + c2.outputvars}:
+            k0 = sorted(t.variables, key=str)[0]
+            near = g.PT({k: (v * (1 + r.choice([5e-6, -5e-6, 2e-6])) if k == k0 else v) for k, v in t.variables.items()}, t.constant)
+            c2 = type(c2)(c2.a, c2.g | g.PTL([near]), c2.inputvars, c2.outputvars, simplify=False)
     return {"op": "merge", "c1": contract_data(c1), "c2": contract_data(c2), "swap": r.random() < 0.5}
 
 
